@@ -472,6 +472,15 @@ theorem single_bin_predict_panics_counterexample :
         .gallonsGasolinePerMile).bind (fun m => m.predict 50 .milesPerHour 0 .decimal) = .panic .underflow := by
   decide +kernel
 
+/-- `Interp2D::new` accepts a one-point axis; `Interpolator::interpolate` then panics at the only
+in-range coordinate of that axis (same `arr.len() - 2` underflow), while the N-D interpolator on the same
+data returns the value -/
+theorem single_point_axis_panics_counterexample :
+    validate2 [(1 : ℚ)] [0, 1] [[3, 4]] = .ok () ∧
+      Interpolator.interpolate (.d2 [(1 : ℚ)] [0, 1] [[3, 4]]) [1, 1 / 2] .linear = .panic .underflow ∧
+      Interpolator.interpolate (.dn (nd2 [(1 : ℚ)] [0, 1] [[3, 4]])) [1, 1 / 2] .linear = .ok (7 / 2) := by
+  decide +kernel
+
 /-- `InterpND::new` with fewer grid axes than value dimensions indexes `grid[i]` out of bounds before it
 reaches its own dimensionality check -/
 theorem nd_new_short_grid_panics_counterexample :
